@@ -238,7 +238,7 @@ class RebuildCheck:
                        "shape": "S1", "alpha": [514, 515, 1026, 2050],
                        "first": None, "seed": seed, "tier": tier})
         for P in ([32768] if quick else [16384, 32768]):
-            for sh in ["S1", "D1", "D1n", "D2n", "D3s", "D3x", "D3n"] + (
+            for sh in ["S1", "D1", "D1n", "D2n", "D3s", "D3x", "D3n", "D3e"] + (
                     [] if quick else ["D3", "D4"]):
                 n = world.nfiles(sh)
                 alpha = [0, 1, P - 1, P, P + 1, 2 * P, 2 * P + 1] if n < 3 \
@@ -266,7 +266,7 @@ class RebuildCheck:
             sb0 = world.fresh_dir("rb_")
             src_parent = os.path.join(sb0, "src")
             os.mkdir(src_parent)
-            srcroot = world.materialize(files, src_parent)
+            srcroot = world.materialize(files, src_parent, shape=w["shape"])
             metas = {}
             for fam in fams or FAMILIES:
                 mp = os.path.join(sb0, fam + ".torrent")
